@@ -146,6 +146,40 @@ class Continue(Expression):
 T = TypeVar("T")
 
 
+_STRING_ESCAPES = {"\\": "\\\\", "\n": "\\n", "\r": "\\r", "\t": "\\t"}
+
+
+def _quote_char(value: str) -> str:
+    """Return the quote character to enclose _value_ with, like `repr()` would."""
+    return '"' if "'" in value and '"' not in value else "'"
+
+
+def _escape_string(value: str, quote: str) -> str:
+    """Return _value_ escaped for use inside a Liquid string literal."""
+    buf: list[str] = []
+    for i, ch in enumerate(value):
+        if ch in _STRING_ESCAPES:
+            buf.append(_STRING_ESCAPES[ch])
+        elif ch == quote:
+            buf.append("\\" + ch)
+        elif ch == "$" and value[i + 1 : i + 2] == "{":
+            # Not the start of an interpolated expression.
+            buf.append("\\$")
+        elif ch.isprintable():
+            buf.append(ch)
+        else:
+            code_point = ord(ch)
+            if code_point > 0xFFFF:
+                code_point -= 0x10000
+                buf.append(
+                    f"\\u{0xD800 + (code_point >> 10):04x}"
+                    f"\\u{0xDC00 + (code_point & 0x3FF):04x}"
+                )
+            else:
+                buf.append(f"\\u{code_point:04x}")
+    return "".join(buf)
+
+
 class Literal(Expression, Generic[T]):
     __slots__ = ("value",)
 
@@ -209,6 +243,10 @@ class StringLiteral(Literal[str]):
 
     def __init__(self, token: TokenT, value: str):
         super().__init__(token, value)
+
+    def __str__(self) -> str:
+        quote = _quote_char(self.value)
+        return f"{quote}{_escape_string(self.value, quote)}{quote}"
 
     def __eq__(self, other: object) -> bool:
         return isinstance(other, StringLiteral) and self.value == other.value
@@ -387,12 +425,16 @@ class TemplateString(Expression):
         return isinstance(other, TemplateString) and self.template == other.template
 
     def __str__(self) -> str:
-        return repr(
-            "".join(
-                e.value if isinstance(e, StringLiteral) else f"${{{e}}}"
-                for e in self.template
-            )
+        quote = _quote_char(
+            "".join(e.value for e in self.template if isinstance(e, StringLiteral))
         )
+        parts = "".join(
+            _escape_string(e.value, quote)
+            if isinstance(e, StringLiteral)
+            else f"${{{e}}}"
+            for e in self.template
+        )
+        return f"{quote}{parts}{quote}"
 
     def __hash__(self) -> int:
         return hash(tuple(self.template))
